@@ -544,3 +544,28 @@ Proof.
   - intros v v' m m' c1 H Hm. exact (krun_cveq body v v' m m' c1 H Hm).
   - intros v m c1 c2 w H col k Hc. destruct (krun_facts body v m c1 c2 w H) as (F & _ & _). unfold cv_entry. now rewrite (F col Hc).
 Qed.
+
+(* ---------------- cond / switch never fail on their own ---------------- *)
+(* when every branch runs through on the scope it is given and all branches leave the mutable collections in the same
+   structure (what lax.cond / lax.switch demand), the lifted call succeeds *)
+Theorem switch_total Y bs idx vf om xs : bs <> [] ->
+  (forall b, In b bs -> exists y gs, branch_out Y om vf xs b = Some (y, gs)) ->
+  (forall b b' y gs y' gs', In b bs -> In b' bs -> branch_out Y om vf xs b = Some (y, gs) -> branch_out Y om vf xs b' = Some (y', gs') ->
+     cshape (concat gs) = cshape (concat gs')) ->
+  exists y xs', lift_switch Y bs idx vf om xs = POk Y y xs'.
+Proof.
+  intros Hne Hall Hsh. destruct bs as [|b1 br]; [contradiction|]. unfold lift_switch.
+  set (n := Nat.min idx (length (b1 :: br) - 1)).
+  assert (Hn : n < length (b1 :: br)) by (subst n; cbn [length]; lia).
+  cbn [map]. change (branch_out Y om vf xs b1 :: map (branch_out Y om vf xs) br) with (map (branch_out Y om vf xs) (b1 :: br)).
+  destruct (Hall b1 (or_introl eq_refl)) as (y1 & gs1 & H1).
+  assert (Hf : forallb (fun o => match o, branch_out Y om vf xs b1 with
+                                 | Some (_, gs), Some (_, gs0) => cshape_eqb (concat gs) (concat gs0)
+                                 | _, _ => false end) (map (branch_out Y om vf xs) (b1 :: br)) = true).
+  { apply forallb_forall. intros o Ho. apply in_map_iff in Ho as (b & <- & Hb).
+    destruct (Hall b Hb) as (y & gs & H). rewrite H, H1. apply cshape_eqb_refl'.
+    exact (Hsh b b1 y gs y1 gs1 Hb (or_introl eq_refl) H H1). }
+  rewrite Hf.
+  rewrite (nth_indep _ None (branch_out Y om vf xs b1)) by now rewrite map_length.
+  rewrite map_nth. destruct (Hall (nth n (b1 :: br) b1) (nth_In _ _ Hn)) as (y & gs & H). rewrite H. eauto.
+Qed.
